@@ -8,6 +8,9 @@ package subgroup_info
 //@ define psWF(ps *PodSet) bool = ps != nil && ps.podInfos != nil && ps.podStatusMap != nil && ps.podStatusIndex != nil && (forall s in ps.podStatusIndex :: ps.podStatusIndex[s] != nil && allocated(ps.podStatusIndex[s]) && ps.podStatusIndex[s] != ps.podInfos) && (forall s1 in ps.podStatusIndex :: forall s2 in ps.podStatusIndex :: s1 != s2 ==> ps.podStatusIndex[s1] != ps.podStatusIndex[s2])
 
 // 0/1 indicator of a status class (classes are pinned down by the pod_status contracts)
+// C14 "pod counts per status, gang counters ... equal the value recomputed from scratch from the pods and their statuses":
+// the three gang counters of a pod set are the RECOUNT over the recorded statuses (closed form, finite sums).
+//@ define psCounted(ps *PodSet) bool = ps.numActiveAllocatedTasks == (sum k in ps.podStatusMap :: inAA(ps.podStatusMap[k])) && ps.numActiveUsedTasks == (sum k in ps.podStatusMap :: inAU(ps.podStatusMap[k])) && ps.numAliveTasks == (sum k in ps.podStatusMap :: inAlive(ps.podStatusMap[k]))
 //@ define inAA(s int) int = ite(pod_status.IsActiveAllocatedStatus(s), 1, 0)
 //@ define inAU(s int) int = ite(pod_status.IsActiveUsedStatus(s), 1, 0)
 //@ define inAlive(s int) int = ite(pod_status.IsAliveStatus(s), 1, 0)
@@ -23,6 +26,7 @@ package subgroup_info
 //@   ensures [au] ps.numActiveUsedTasks == old(ps.numActiveUsedTasks) - old(ite(ti.UID in ps.podStatusMap, inAU(ps.podStatusMap[ti.UID]), 0))
 //@   ensures [alive] ps.numAliveTasks == old(ps.numAliveTasks) - old(ite(ti.UID in ps.podStatusMap, inAlive(ps.podStatusMap[ti.UID]), 0))
 //@   ensures [gone] !(ti.UID in ps.podStatusMap)
+//@   ensures [recount] old(psCounted(ps)) ==> psCounted(ps)
 //@   ensures [goneIdx] old(ti.UID in ps.podStatusMap) ==> !(ti.UID in ps.podInfos) && !(ti.UID in ps.podStatusIndex[old(ps.podStatusMap[ti.UID])])
 //@   ensures psWF(ps)
 //@ end
@@ -41,6 +45,7 @@ package subgroup_info
 //@   ensures [index] ti.Status in ps.podStatusIndex && ti.UID in ps.podStatusIndex[ti.Status] && ps.podStatusIndex[ti.Status][ti.UID] == ti
 //@   ensures [moved] old(ti.UID in ps.podStatusMap && ps.podStatusMap[ti.UID] != ti.Status) ==> !(ti.UID in ps.podStatusIndex[old(ps.podStatusMap[ti.UID])])
 //@   ensures [sig] ps.schedulingConstraintsSignature == ""
+//@   ensures [recount] old(psCounted(ps)) ==> psCounted(ps)
 //@   ensures psWF(ps)
 //@ end
 
@@ -51,6 +56,7 @@ package subgroup_info
 //@   ensures result.minAvailable == minAvailable && result.name == name && result.parent == nil && result.topologyConstraint == topologyConstraint
 //@   ensures result.numActiveAllocatedTasks == 0 && result.numActiveUsedTasks == 0 && result.numAliveTasks == 0
 //@   ensures len(result.podInfos) == 0 && len(result.podStatusMap) == 0 && len(result.podStatusIndex) == 0
+//@   ensures [recount] psCounted(result)
 //@ end
 
 // C03 (DESIGN): IsReadyForScheduling <==> alive - gated >= min.
@@ -181,20 +187,51 @@ package subgroup_info
 //@   ensures [rootIsRoot] result1 == nil ==> result0.name == ""
 //@ end
 
+// (helper c04c) C04 ("When a workload or sub-group declares a required topology level, all of its pods placed by a
+// decision, together with its already active pods, lie in one domain ... Constraints of nested sub-groups hold
+// simultaneously with those of their parents"): the pod sets a sub-group's constraint speaks about are the pod sets AT
+// OR BELOW that sub-group in the sub-group tree. belowSG(parent, name, ps): pod set ps lies at or below the node of the
+// sub-group tree whose SubGroupInfo has this parent link and this name (a node is identified by its parent link and its
+// name: that is all a *SubGroupInfo carries besides the constraint itself; the specification language has no
+// address-of for an embedded struct, so the node is keyed by these VALUES). Least fixpoint of: a pod-set node contains
+// itself; a sub-group-set node contains its child pod sets and what its child sets contain. The one-level unfolding is
+// supplied (as `assume`, definitional) in the units that need it: GetAllPodSets (set node), common.allocatePodSet (leaf).
+//@ declare belowSG(parent *SubGroupSet, name string, ps *PodSet) bool
+// the pod-set map m names every pod set below the node / holds nothing but pod sets below the node, each under its own name
+//@ define podSetsCover(parent *SubGroupSet, name string, m map[string]*PodSet) bool = forall ps *PodSet :: belowSG(parent, name, ps) ==> ps.name in m
+//@ define podSetsOnly(parent *SubGroupSet, name string, m map[string]*PodSet) bool = forall k in m :: belowSG(parent, name, m[k]) && m[k].name == k
+
 // GetAllPodSets walks the sub-group tree recursively. Its totality (no nil child, termination) depends on the
 // nodes reachable from sgs forming a finite tree of non-nil nodes: a reachability invariant that per-function contracts
 // over this heap model cannot state (a quantifier over "all *SubGroupSet" ranges over every address). NOT decided
-// here (see report); proved is only what callers need: the result is a new map (whenever the call returns).
+// here (see report); proved: the result is a new map (whenever the call returns) that names EVERY pod set at or below
+// sgs and nothing else (C04: this is the pod-set argument the topology plugin must get for a sub-group set; the
+// recursive calls use this contract for the child sets).
 //@ func (*SubGroupSet).GetAllPodSets
-//@   props C10
+//@   props C10 C04
 //@   nopanic off
-//@   note no-panic/termination of the recursive tree walk need a reachability invariant (tree of non-nil nodes below sgs); only the freshness of the result is proved
+//@   note no-panic/termination of the recursive tree walk need a reachability invariant (tree of non-nil nodes below sgs); proved are the freshness of the result and its content relative to belowSG
+//@   assume forall ps *PodSet :: belowSG(sgs.parent, sgs.name, ps) <==> ((exists i int :: 0 <= i && i < len(sgs.podSets) && sgs.podSets[i] == ps) || (exists j int :: 0 <= j && j < len(sgs.groups) && belowSG(sgs.groups[j].parent, sgs.groups[j].name, ps)))
+//@   note the assume unfolds the definition of belowSG once at the node sgs (definitional; belowSG is constrained nowhere else in this unit)
 //@   fresh
 //@   loop 1
 //@     invariant result != nil && fresh(result)
+//@     invariant 0 - 1 <= rangeindex && rangeindex < len(sgs.podSets)
+//@     invariant forall i int :: 0 <= i && i <= rangeindex ==> sgs.podSets[i].name in result
+//@     invariant forall k in result :: result[k].name == k && (exists i int :: 0 <= i && i <= rangeindex && sgs.podSets[i] == result[k])
 //@   loop 2
 //@     invariant result != nil && fresh(result)
+//@     invariant 0 - 1 <= rangeindex && rangeindex < len(sgs.groups)
+//@     invariant forall i int :: 0 <= i && i < len(sgs.podSets) ==> sgs.podSets[i].name in result
+//@     invariant forall j int :: 0 <= j && j <= rangeindex ==> podSetsCover(sgs.groups[j].parent, sgs.groups[j].name, result)
+//@     invariant podSetsOnly(sgs.parent, sgs.name, result)
 //@   loop 3
 //@     invariant result != nil && fresh(result)
+//@     invariant forall i int :: 0 <= i && i < len(sgs.podSets) ==> sgs.podSets[i].name in result
+//@     invariant forall j int :: 0 <= j && j <= rangeindex ==> podSetsCover(sgs.groups[j].parent, sgs.groups[j].name, result)
+//@     invariant podSetsOnly(sgs.parent, sgs.name, result)
+//@     invariant forall k in visited :: k in result
 //@   ensures result != nil
+//@   ensures [coversAllBelow] podSetsCover(sgs.parent, sgs.name, result)
+//@   ensures [onlyBelow] podSetsOnly(sgs.parent, sgs.name, result)
 //@ end
